@@ -5,6 +5,7 @@ set -e
 cd "$(dirname "$0")"
 export CARGO_NET_OFFLINE=true
 mkdir -p .cache evidence out
+python3 tools/featgen.py /repo coq/Generated/Features.v >/dev/null
 ( cd coq && coq_makefile -f _CoqProject -o Makefile >/dev/null && timeout 3000 make -j"$(nproc)" )
 bash runner/build.sh
 for v in full nostd; do
